@@ -256,7 +256,7 @@ def run(ctx):
             uniq.append(c)
     if len(uniq) < 1000:
         raise Infra("layout generator wrote only %d cases" % len(uniq))
-    sel = vt.subsample(uniq, ctx.seed, 6 if q else 1)
+    sel = vt.subsample(uniq, ctx.seed, 6 if q else 8)   # thorough: every state is model-checked, 1/8 (seed-selected) replayed
     ctx.sample(dict(kind="layout", case=sel[len(sel) // 2], c_source=render_layout_case(0, sel[len(sel) // 2]),
                     expected=expect_layout(0, sel[len(sel) // 2])))
     compare(ctx, tree, sel, render_layout_case, expect_layout, "layout", layout_sig)
@@ -267,7 +267,7 @@ def run(ctx):
                         "excluded from the domain: zero-width bit-fields in packed aggregates and unions, _Alignas members in packed aggregates, _Alignas on bit-fields"]
     return ctx.finish(
         rule="case = one state of Layout.tla / DeclSpec.tla / Declarator.tla (one aggregate, specifier sequence or declarator) compiled by the tree's chibicc and compared on sizeof/_Alignof/offsets/bit images/signedness; non-trivial = at least two members / keywords / declarator operators; distinct = distinct case record",
-        exhaustive=not q, extra=dict(layout_cases=len(uniq), layout_replayed=len(sel)))
+        exhaustive=False, extra=dict(layout_cases=len(uniq), layout_replayed=len(sel)))
 
 
 def replay(ctx, path):
